@@ -65,6 +65,9 @@ Special == {
       F("a", 1, 13, T_Uint16, 0, 0, 0, 0, "u4"), F("a", 11, 5, T_Coil, 0, 0, 0, 0, "u5"), F("a1", 1, 6, T_Coil, 0, 0, 0, 0, "u6")>>,
     <<F("h:1_2", 3, 1, T_Uint16, 0, 0, 0, 0, "v1"), F("h:1", 23, 2, T_Uint16, 0, 0, 0, 0, "v2"), F("h:12", 3, 3, T_Uint16, 0, 0, 0, 0, "v3"),
       F("h:1", 2, 4, T_Uint16, 0, 0, 0, 0, "v4")>>,
+    \* the ends of the bit range, on registers whose bits differ from their neighbours'
+    <<F("a:1", 1, 12, T_Bit, 15, 0, 0, 0, "b15"), F("a:1", 1, 12, T_Bit, 0, 0, 0, 0, "b0"), F("a:1", 1, 13, T_Bit, 14, 0, 0, 0, "b14"),
+      F("a:1", 1, 13, T_Bit, 1, 0, 0, 0, "b1")>>,
     <<>> }
 
 MaxK == IF Thorough THEN 5 ELSE 3
